@@ -753,12 +753,13 @@ def check_c08(ctx, rep, tier):
     rep.floor("copy_range truncations (K1)", counts.get("K1", 0), 2)
     n = run_generic(ctx, rep, "SAFE-RECV", lambda c: receiver_shared(c, ("copy_range", "first", "last")), memo_key="recv_c08")
     rep.floor("copy_range receivers", n, 3)
-    n = run_generic(ctx, rep, "ORDER", f2.trait_defaults, select=lambda b, k: any(x in k for x in ("split_off", "split", "first", "last")))
-    rep.floor("split/first/last compositions", n, 8)
+    n = run_generic(ctx, rep, "ORDER", f2.trait_defaults, select=lambda b, k: any(x in k for x in ("split_off", "split", "first", "last", "is_empty")))
+    rep.floor("split/first/last compositions", n, 9)
     run_generic(ctx, rep, "UNWRAP", unwrap.sites, configs=("dbg",), select=lambda b, k: b.name == "copy_range")
     run_generic(ctx, rep, "DECR", arith.decr_sites, configs=("dbg",), select=lambda b, k: b.name in ("copy_range", "last", "first", "split_off"))
     run_generic(ctx, rep, "DISPATCH", lambda c: [(b, b.key, "violation" if v == "violation" else "pass", m) for b, v, m in dispatch.analyse(c)],
-                select=lambda b, k: b.name == "copy_range", memo_key="dispatch")
+                select=lambda b, k: b.name in ("copy_range", "len", "get", "is_empty", "resize"), memo_key="dispatch")
+    run_defs(ctx, rep, "is_empty", "::len", floor=3)
     rep.not_decided += ["the offset/slide word copy itself (value-level)"]
 
 
@@ -769,6 +770,8 @@ def check_c09(ctx, rep, tier):
     rep.floor("comparison kernels + sibling pairs", n, 9)
     run_generic(ctx, rep, "UNWRAP", unwrap.sites, configs=("dbg",), select=lambda b, k: b.name in ("cmp", "partial_cmp"))
     run_used(ctx, rep)
+    counts = run_mask(ctx, rep, select=lambda w: (w.body.self_family == "Bvd" or w.body.kind == "Closure") and w.klass != "CTOR")
+    rep.floor("Bvd storage writers (premise: zero padding over allocated words)", sum(counts.values()), 50)
     rep.notes.append("Bvd x Bvd comparisons read all *allocated* words: they rely on the padding invariant decided under C03 (USED/MASK)")
     if tier == "thorough":
         _matrix(ctx, rep, ("cmp",))
@@ -780,6 +783,11 @@ def check_c10(ctx, rep, tier):
     n = run_generic(ctx, rep, "HASH", cmp.hash_taint)
     rep.floor("hash sinks / loop bounds / mode checks", n, 7)
     run_generic(ctx, rep, "UNWRAP", unwrap.sites, configs=("dbg",), select=lambda b, k: b.name == "hash")
+    # Hash for Bvf/Bvd feeds raw storage words: it is in the reliance set of the padding invariant, so the writer
+    # discipline (every writer re-establishes zero padding) is a premise of this property
+    counts = run_mask(ctx, rep, select=lambda w: w.klass != "CTOR")   # the trusted constructors are C03's known finding F11
+    rep.floor("raw storage writers (premise: zero padding)", sum(counts.values()), 120)
+    run_used(ctx, rep)
     run_defs(ctx, rep, "significant_bits", "capacity_from_bit", floor=3)
     rep.not_decided += ["that significant_bits is exact (C16, value-level)"]
 
@@ -791,6 +799,35 @@ def _is_int_conv(b, k):
     return (b.self_ty in f2.WORD_TYPES + ("Bit", "bool")) or a.lstrip("&") in f2.WORD_TYPES + ("Bit", "bool") or a.startswith("&[")
 
 
+def bv_to_int_dispatch(crate):
+    """TryFrom<&Bv> for uN: both arms convert the payload of their own variant straight to the integer (no detour through
+    another vector type, whose capacity check is on the length, not on the value)"""
+    out = []
+    for b in crate.bodies:
+        if not (b.trait == "TryFrom" and b.self_ty in f2.WORD_TYPES and b.trait_args and b.trait_args[0] == "&Bv"):
+            continue
+        arms = {"Fixed": [], "Dynamic": []}
+        extra = []
+        for bb, t, fn in b.iter_calls():
+            if not fn or fn["name"] in ("branch", "from_residual", "from_output"):
+                continue
+            args = [b.e_operand(a) for a in t["args"]]
+            v = dispatch.payload_variant(args[0]) if args else None
+            if fn["name"] in ("try_into", "try_from") and v in arms:
+                tgt = [mir.short_ty(a) for a in fn.get("args", [])]
+                arms[v].append((fn["name"], tgt))
+            elif fn["name"] == "from" and "ConvertionError" in " ".join(fn.get("args", [])):
+                continue
+            else:
+                extra.append("%s(%s)" % (fn["name"], ", ".join(mir.show(a)[:40] for a in args)))
+        ok = len(arms["Fixed"]) == 1 and len(arms["Dynamic"]) == 1 and not extra \
+            and all(b.self_ty in " ".join(tg) for _, tg in arms["Fixed"] + arms["Dynamic"])
+        out.append((b, "%s|symmetric dispatch" % b.key, "pass" if ok else "violation",
+                    "each arm converts its own payload directly to %s" % b.self_ty if ok else
+                    "arms: Fixed %s, Dynamic %s, other calls %s" % (arms["Fixed"], arms["Dynamic"], extra)))
+    return out
+
+
 def check_c11(ctx, rep, tier):
     n = run_generic(ctx, rep, "LEN", f2.length_effects, select=_is_int_conv)
     rep.floor("integer conversion length effects", n, 18)
@@ -800,6 +837,8 @@ def check_c11(ctx, rep, tier):
     rep.floor("unwrap sites in integer conversions", n, 6)
     n = run_generic(ctx, rep, "CONST", f2.bit_conversions)
     rep.floor("Bit conversions", n, 14)
+    n = run_generic(ctx, rep, "DISPATCH", bv_to_int_dispatch)
+    rep.floor("Bv -> integer dispatchers", n, 6)
     run_generic(ctx, rep, "GUARD-CAP", guard.capacity_guards, select=_is_int_conv, trusted_rule="GUARD-CAP-TABLE")
     run_mask(ctx, rep, select=lambda w: _is_int_conv(w.body, ""))
     rep.not_decided += ["word values produced by the conversions"]
